@@ -468,7 +468,11 @@ pub(super) fn set_negative_bit(x: &mut BigInt, bit: u64, value: bool) {
         let trailing_zeros = data.trailing_zeros().unwrap();
         if bit > trailing_zeros {
             data.set_bit(bit, !value);
+            #[cfg(num_bigint_verif)]
+            crate::verif_probe::hit(crate::verif_probe::Probe::SETNEG_CASE_GT_SET);
         } else if bit == trailing_zeros && !value {
+            #[cfg(num_bigint_verif)]
+            crate::verif_probe::hit(crate::verif_probe::Probe::SETNEG_CASE_EQ);
             // Clearing the bit at position `trailing_zeros` is dealt with by doing
             // similarly to what `bitand_neg_pos` does, except we start at digit
             // `bit_index`. All digits below `bit_index` are guaranteed to be zero,
@@ -500,6 +504,8 @@ pub(super) fn set_negative_bit(x: &mut BigInt, bit: u64, value: bool) {
                 data.digits_mut().push(1);
             }
         } else if bit < trailing_zeros && value {
+            #[cfg(num_bigint_verif)]
+            crate::verif_probe::hit(crate::verif_probe::Probe::SETNEG_CASE_LT);
             // Flip each bit from position 'bit' to 'trailing_zeros', both inclusive
             //       ... 1 !x 1 0 ... 0 ... 0
             //                        |-- bit at position 'bit'
